@@ -834,6 +834,22 @@ class SplineTerm(Term):
             )
         return self
 
+    @property
+    def info(self):
+        """get information about this term
+
+        Parameters
+        ----------
+
+        Returns
+        -------
+        dict containing information to duplicate this term
+        """
+        info = super(SplineTerm, self).info
+        if getattr(self, '_edge_knots_given', False):
+            info.update({'edge_knots': list(self.edge_knots_)})
+        return info
+
     def build_columns(self, X, verbose=False):
         """construct the model matrix columns for the term
 
